@@ -213,7 +213,9 @@ Block(ans) ==
                    [run EXCEPT !.pc = IF need = <<>> THEN "check" ELSE "comms", !.blk = ans, !.need = need]
               [] OTHER -> [run EXCEPT !.pc = "check", !.blk = ans]
   /\ out' = {}
-  /\ UNCHANGED <<conf, tick, subs, comms, checked, done, nid, lost, over>>
+  \* ghost: a processed answer that does not reach CheckOn still counts as a checked block
+  /\ subs' = IF run'.pc = "trim" THEN [k \in DOMAIN subs |-> [subs[k] EXCEPT !.seen = @ \/ ContractIn(comms, ans, run.slot, subs[k])]] ELSE subs
+  /\ UNCHANGED <<conf, tick, comms, checked, done, nid, lost, over>>
 (* ans: [err, sizes] *)
 Comm(ans) ==
   /\ run.pc = "comms"
@@ -223,14 +225,14 @@ Comm(ans) ==
   /\ out' = {}
   /\ UNCHANGED <<conf, tick, subs, checked, done, nid, lost, over>>
 
-Remove(taken) == IF Defect = "noDelete" THEN {} ELSE taken
+Removed(taken) == IF Defect = "noDelete" THEN {} ELSE taken
 CheckOff ==
   /\ run.pc = "check" /\ ~conf.flag
   /\ LET found == run.blk.kind = "found"
          hit == {k \in DOMAIN subs : subs[k].typ = "proposer" /\ subs[k].slot = run.slot}
          reps == {Rep(subs[k], IF found THEN "incl" ELSE "miss", IF found \/ "F1" \in Dev THEN "ok" ELSE "err", "check",
                       run.slot, found, FALSE) : k \in hit}
-     IN /\ subs' = Restrict(subs, DOMAIN subs \ Remove(hit))
+     IN /\ subs' = Restrict(subs, DOMAIN subs \ Removed(hit))
         /\ out' = reps /\ done' = done \cup Ids(reps)
   /\ run' = [run EXCEPT !.pc = "trim"]
   /\ UNCHANGED <<conf, tick, comms, checked, nid, lost, over>>
@@ -247,7 +249,7 @@ CheckOn ==
               taken == {k \in DOMAIN subs : v(k) = "in" \/ (v(k) = "err" /\ "F2" \in Dev)}
               reps == {Rep(subs[k], "incl", "ok", "check", run.slot, cin(k), k \in warned) : k \in taken}
                       \cup {Rep(subs[k], "warnonly", "-", "check", run.slot, cin(k), TRUE) : k \in warned \ taken}
-          IN /\ subs' = [k \in DOMAIN subs \ Remove(taken) |-> [subs[k] EXCEPT !.seen = @ \/ cin(k)]]
+          IN /\ subs' = [k \in DOMAIN subs \ Removed(taken) |-> [subs[k] EXCEPT !.seen = @ \/ cin(k)]]
              /\ out' = reps /\ done' = done \cup Ids(reps)
   /\ comms' = IF run.slot >= MissedLag THEN Restrict(comms, DOMAIN comms \ {run.slot - MissedLag}) ELSE comms
   /\ run' = [run EXCEPT !.pc = "trim"]
